@@ -2,7 +2,7 @@ package udp
 
 // Bounded stand-in for the listener's read loops (read / readBatch, C11): they are not under contract (external
 // ipv4.Message batches).  Both read modes are run with 4 remotes sending 60 datagrams each whose sizes go up and down
-// (1..1400 bytes); everything a connection reads must be, in order, a prefix of what its remote sent, byte for byte.
+// (0..1400 bytes, empty datagrams included); everything a connection reads must be, in order, a prefix of what its remote sent, byte for byte.
 // Labelled `bounded` in the evidence, never counted as proved.  Missing tail datagrams (UDP may drop) are tolerated.
 
 import (
@@ -29,6 +29,9 @@ func TestBoundedReadLoops(t *testing.T) {
 		const remotes, per = 4, 60
 		size := func(r, i int) int {
 			s := []int{10, 1400, 3, 700, 1, 1200, 64, 900}[(i+r)%8]
+			if s == 1 && i%7 == 0 {
+				return 0 // an empty datagram is a datagram too
+			}
 			return s + i%7
 		}
 		mk := func(r, i int) []byte {
@@ -104,6 +107,25 @@ func TestBoundedReadLoops(t *testing.T) {
 				j++
 				cases++
 			}
+		}
+		// loss over loopback is rare and blind to content: a whole class of datagrams (the empty ones) that never arrives
+		// while nearly everything else does is not loss
+		sentEmpty, gotEmpty, gotAll := 0, 0, 0
+		for r := range socks {
+			for i := 0; i < per; i++ {
+				if size(r, i) == 0 {
+					sentEmpty++
+				}
+			}
+			for _, d := range got[socks[r].LocalAddr().String()] {
+				gotAll++
+				if len(d) == 0 {
+					gotEmpty++
+				}
+			}
+		}
+		if sentEmpty >= 4 && gotEmpty == 0 && gotAll*10 >= remotes*per*9 {
+			t.Fatalf("BOUNDED-FAIL batch=%v: none of the %d empty datagrams was delivered although %d of %d datagrams arrived", batch, sentEmpty, gotAll, remotes*per)
 		}
 		mu.Unlock()
 		_ = ln.Close()
